@@ -13,8 +13,9 @@ import (
 // the program is data so that it can be replayed and is shrunk by rapid as one value).
 
 type Step struct {
-	Kind   string `json:"kind"` // new | apply | throwaway | sanitize | check
+	Kind   string `json:"kind"` // new | apply | throwaway | sanitize | check | rebind
 	P      int    `json:"p,omitempty"`
+	Q      int    `json:"q,omitempty"` // rebind: the other policy that is extended in between
 	Base   string `json:"base,omitempty"`
 	Op     *Op    `json:"op,omitempty"`
 	Ops    []Op   `json:"ops,omitempty"`
@@ -182,6 +183,20 @@ func genC17(t *rapid.T) *Case {
 			}
 		case 1, 2, 3, 4, 5:
 			pi := rapid.IntRange(0, len(pols)-1).Draw(t, "pi")
+			if len(pols) >= 2 && rapid.IntRange(0, 9).Draw(t, "rebind") == 0 {
+				// one builder value bound twice (OnElements, later OnElementsMatching) with a builder
+				// call on ANOTHER policy in between: both rules belong to the first policy
+				qi := (pi + 1 + rapid.IntRange(0, len(pols)-2).Draw(t, "qi")) % len(pols)
+				op := Op{Kind: "AllowAttrs", Attrs: subset(t, c17Opts.AtPool, 1, 2, "rbattr"), Scope: "els", Names: subset(t, c17Opts.ElPool, 1, 2, "rbel"),
+					ElRe: rapid.IntRange(0, 9).Draw(t, "rbelre"), ValRe: rapid.SampledFrom([]int{-1, -1, 0, 3, 4}).Draw(t, "rbre")}
+				second := op
+				second.Scope, second.Names = "elre", nil
+				other := Op{Kind: "AllowAttrs", Attrs: []string{"title"}, Scope: "els", Names: []string{"quiz"}, ValRe: -1}
+				pols[pi].hist = append(pols[pi].hist, op, second)
+				pols[qi].hist = append(pols[qi].hist, other)
+				c.Steps = append(c.Steps, Step{Kind: "rebind", P: pi, Q: qi, Op: &op, Ops: []Op{second, other}})
+				continue
+			}
 			if rapid.IntRange(0, 7).Draw(t, "styled") == 0 {
 				// a complete inline-style configuration whose handler is one of several closures of the
 				// same function literal: what one instance's handler decided must not leak into another's
@@ -262,6 +277,20 @@ func checkC17(c *Case, r *Rec) error {
 				ApplyOp(lp.p, *st.Op, nil)
 				lp.hist = append(lp.hist, *st.Op)
 				lp.memo = nil
+			}
+		case "rebind":
+			if st.P < len(pols) && st.Q < len(pols) && st.P != st.Q && st.Op != nil && len(st.Ops) == 2 {
+				lp, lq := pols[st.P], pols[st.Q]
+				b := lp.p.AllowAttrs(st.Op.Attrs...)
+				if st.Op.ValRe >= 0 {
+					b = b.Matching(valRePool[st.Op.ValRe].re)
+				}
+				b.OnElements(st.Op.Names...)
+				ApplyOp(lq.p, st.Ops[1], nil)
+				b.OnElementsMatching(elRePool[st.Op.ElRe])
+				lp.hist = append(lp.hist, *st.Op, st.Ops[0])
+				lq.hist = append(lq.hist, st.Ops[1])
+				lp.memo, lq.memo = nil, nil
 			}
 		case "throwaway":
 			tp := Build(&Spec{Base: st.Base}, nil)
